@@ -19,10 +19,32 @@ let () =
     | Some id -> Printf.printf "testid %d ok=1 id=%s\n" idx (hex id)
     | None -> Printf.printf "testid %d ok=0 id=-\n" idx)
 
+let last_clean : clean_result option ref = ref None
+
+(* readsum: the bytes the implementation's Clean printed, read by the verified reader [read_summary]:
+   ok = accepted; agree = what was read equals this model's own Clean result (lists as multisets);
+   render = printing what was read (in the implementation's order) gives back exactly those bytes *)
+let run_readsum (idx : int) (f : (str * str) list) : unit =
+  let raw = unhex (get f "raw") in
+  let nocolor = get f "nocolor" = "1" in
+  match read_summary raw, !last_clean with
+  | None, _ -> Printf.printf "readsum %d ok=0 agree=0 render=0\n" idx
+  | Some _, None -> Printf.printf "readsum %d ok=1 agree=0 render=0\n" idx
+  | Some rd, Some r ->
+    let exp = sumread_of (sumdata_of_result r) in
+    let srt l = List.sort compare (List.map hex l) in
+    let agree = srt rd.sr_files = srt exp.sr_files && srt rd.sr_tests = srt exp.sr_tests
+                && rd.sr_skipped = exp.sr_skipped && rd.sr_counts = exp.sr_counts && rd.sr_wording = exp.sr_wording in
+    let d = { sd_files = rd.sr_files; sd_tests = rd.sr_tests; sd_skipped = rd.sr_skipped; sd_counts = rd.sr_counts;
+              sd_update = r.cr_removed } in
+    let render = clean_stdout nocolor d = raw in
+    Printf.printf "readsum %d ok=1 agree=%s render=%s\n" idx (b01 agree) (b01 render)
+
 let run_clean (idx : int) (st : state) (f : (str * str) list) : state =
   let sort = get f "sort" = "1" in
   let count = nat_of_int (int_of_string (get f "count")) in
   let (st', r) = clean_run st sort count in
+  last_clean := Some r;
   let sl l = match l with [] -> "~" | _ -> String.concat "," (List.sort compare (List.map hex l)) in
   let ws = List.sort compare (List.map (fun (k, p) -> (match k with WRemove -> "remove" | _ -> "mod") ^ ":" ^ hex p) r.cr_writes) in
   let c = r.cr_counts in
